@@ -7,6 +7,7 @@ import SJ.Props.C09RawNested
 import SJ.Props.C09Tok
 import SJ.Props.C09Readers
 import SJ.Props.C09ReadersRaw
+import SJ.Props.TypedSrcFloat
 #print axioms SJ.Props.C09.c09_slice_reader
 #print axioms SJ.Props.C09.c09_str_slice_ignored
 #print axioms SJ.Props.C09.c09_str_slice_value
@@ -54,3 +55,8 @@ import SJ.Props.C09ReadersRaw
 #print axioms SJ.Props.C09.c09_slice_raw_refines
 #print axioms SJ.Props.C09.c09_io_raw_refines
 #print axioms SJ.Props.C09.c09_raw_readers_agree
+#print axioms SJ.Props.TypedSrc.c09_typed_slice_reader_no128
+#print axioms SJ.Props.TypedSrc.c09_typed_out_of_range_float_same
+#print axioms SJ.Props.TypedSrc.c09_typed_f64_f32_out_of_range_same
+#print axioms SJ.Props.TypedSrc.c09_typed_out_of_range_shift_needs_128
+#print axioms SJ.Props.TypedSrc.c09_typed_out_of_range_128_shift
